@@ -107,6 +107,23 @@ def shadow_population(rep, rule, c, SH, access):
               f"add() happens under {[ir.show(x) + ('' if p else ' (negated)') for x, p in conds]}; expected reg.element.access.{access}()")
     preps = [c.norm(x[0]) for x in c.t.calls if x[0][0] == 'call' and x[0][1][0] == 'attr' and x[0][1][2] == 'prepare'
              and c.norm(x[0][1][1]) == SH]
+    if not preps:
+        # prepared inside a private helper that builds the shadows (a factory called by elaborate())?
+        import ast as _ast
+        cls_ = c.fi.cls
+        if any(isinstance(x, _ast.Call) and isinstance(x.func, _ast.Attribute) and x.func.attr == "prepare" for x in _ast.walk(c.fi.node)):
+            rep.unk(rule, site, "shadow is prepared before its chunks are used", "prepare() is called, but on another name than the shadow the "
+                    "chunks are taken from (a loop over both shadows, an alias): that it is this shadow is not derived")
+            return
+        for call in _ast.walk(c.fi.node):
+            if isinstance(call, _ast.Call) and isinstance(call.func, _ast.Attribute) and isinstance(call.func.value, _ast.Name) and \
+                    call.func.value.id == "self" and cls_ is not None:
+                h = c.idx.lookup_method(cls_, call.func.attr)
+                if h is not None and h.node is not c.fi.node and any(
+                        isinstance(x, _ast.Call) and isinstance(x.func, _ast.Attribute) and x.func.attr == "prepare" for x in _ast.walk(h.node)):
+                    rep.unk(rule, site, "shadow is prepared before its chunks are used", f"prepare() is called in {h.qual}, not in elaborate(); "
+                            "that it is this shadow, and before its chunks are used, is not derived")
+                    return
     rep.check(len(preps) >= 1, rule, site, "shadow is prepared before its chunks are used", "no prepare() call", nontrivial=False)
 
 
